@@ -4075,6 +4075,9 @@ theorem connect_not_userKind (p : Packet) (h : isConnectPacket p = true) : isUse
   cases p <;> simp [isConnectPacket] at h <;> rfl
 
 /-- `on_current_operation_fully_written` -/
+theorem armPingDeadline_view (e : Engine) (o : Op) : (e.armPingDeadline o).view = e.view := by
+  unfold Engine.armPingDeadline; split <;> rfl
+
 theorem onFullyWritten_out (e e3 : Engine) (hw : e.onFullyWritten = some e3) (hok : e.core.Ok) (h : Big [] [] e.view)
     (hst : e.state = .connected ∨ e.state = .pendingConnack) : Big [] [] e3.view ∧ SV e e3 := by
   unfold Engine.onFullyWritten at hw
@@ -4139,7 +4142,20 @@ theorem onFullyWritten_out (e e3 : Engine) (hw : e.onFullyWritten = some e3) (ho
         · exact ⟨by show e1.current = _; rw [hcur1]; exact hc, SV.of_frame rfl rfl rfl, hloc⟩
         · exact ⟨by show e1.current = _; rw [hcur1]; exact hc, SV.of_frame rfl rfl rfl, hloc⟩
       subst hw
-      generalize (e1.setOp { o with pingBase := some e.now }).startAckTimeout o.id = e2' at h3 hfr ⊢
+      generalize (e1.setOp { o with pingBase := some e.now }).startAckTimeout o.id = e2a at h3 hfr ⊢
+      -- arming the PINGRESP deadline touches nothing the invariant reads
+      have hv : (e2a.armPingDeadline o).view = e2a.view := armPingDeadline_view e2a o
+      rw [← hv] at h3
+      have hfr2 : (e2a.armPingDeadline o).view.current = some o.id ∧ SV e1 (e2a.armPingDeadline o) ∧
+          (o.id ∈ (e2a.armPingDeadline o).pendingWC ∨ o.id ∈ vals (e2a.armPingDeadline o).pendingPub ∨ o.id ∈ vals (e2a.armPingDeadline o).pendingNonPub) := by
+        refine ⟨by rw [hv]; exact hfr.1, hfr.2.1.trans (SV.of_frame (congrArg View.userQ hv) (congrArg View.resubQ hv) (congrArg View.state hv)), ?_⟩
+        have a1 : (e2a.armPingDeadline o).pendingWC = e2a.pendingWC := congrArg View.pendingWC hv
+        have a2 : (e2a.armPingDeadline o).pendingPub = e2a.pendingPub := congrArg View.pendingPub hv
+        have a3 : (e2a.armPingDeadline o).pendingNonPub = e2a.pendingNonPub := congrArg View.pendingNonPub hv
+        rw [a1, a2, a3]; exact hfr.2.2
+      clear hfr
+      have hfr := hfr2
+      generalize e2a.armPingDeadline o = e2' at h3 hfr ⊢
       refine ⟨?_, sv1.trans (hfr.2.1.trans (SV.of_frame rfl rfl rfl))⟩
       have hcl := h3.clearCurrent o.id hfr.1
       refine hcl.drop_located ?_
@@ -4236,26 +4252,35 @@ theorem serviceQueue_out (e : Engine) (all : Bool) (cap prefill : Nat) (hok : e.
     SV.of_frame rfl rfl rfl
   exact ⟨⟨r.1.1, r.1.2⟩, a.trans (r.2.trans b)⟩
 
+theorem queuePing_hk (e : Engine) (hst : e.state ≠ .pendingConnack) : ∀ e2, e.queuePing = some e2 → HK e e2 := by
+  intro e2 h
+  unfold Engine.queuePing at h
+  split at h
+  · cases h; exact HK.refl _
+  · have hk := createEnqueueHigh_hk e .pingreq true rfl hst
+    simp only [] at h
+    rw [h] at hk
+    exact hk
+
 theorem serviceKeepAlive_hk (e : Engine) (hst : e.state ≠ .pendingConnack) : HK e e.serviceKeepAlive.1 := by
   unfold Engine.serviceKeepAlive
   split
   · split <;> exact HK.refl _
   · split
     · split
-      · simp only []
-        have hk := createEnqueueHigh_hk e .pingreq true rfl hst
-        cases henq : (e.createOp .pingreq none).1.enqueue (e.createOp .pingreq none).2 .high true with
-        | none => rw [henq] at hk; exact hk
+      · have hq := queuePing_hk e hst
+        cases hqp : e.queuePing with
+        | none => exact HK.refl _
         | some e2 =>
-          rw [henq] at hk
-          simp only [] at hk ⊢
+          simp only []
+          have hk := hq e2 hqp
           cases hs : e2.settings with
           | none => exact hk
           | some st =>
             simp only []
             split
             · exact hk.trans (HK.of_eq rfl (by simp [Engine.view, hs]))
-            · exact hk.trans (HK.of_eq rfl (by simp [Engine.view, hs]))
+            · exact hk
       · exact HK.refl _
     · exact HK.refl _
 
